@@ -269,6 +269,26 @@ def run(ctx):
                     ctx.fail("an %s variable holding %d read as Integer: %s" % (vt, lo, out[1].tolist() if out[0] == "ok" else out[1]), desc)
             elif not (out[0] == "mp" and out[1] == want):
                 ctx.fail("an %s variable holding %d read as %s is not rejected with %s: %s" % (vt, lo, tname, want, out[1].tolist() if out[0] == "ok" else out[:2]), desc)
+    # whole numbers that no double holds exactly (beyond 2^53), in signed and unsigned 64-bit variables: read as integers they come back digit for digit
+    for vt, vals in (("i8", [2 ** 53 + 1, -(2 ** 53) - 1, 2 ** 62 + 3, 9007199254740993, 5]), ("u8", [2 ** 53 + 1, 2 ** 63 + 5, 3, 2 ** 64 - 5, 0])):
+        for tname in ("Integer", "Positive Integer"):
+            if tname == "Positive Integer" and any(v < 0 for v in vals):
+                vals = [abs(v) for v in vals]
+            arr = numpy.ma.array(numpy.array(vals, dtype=vt), mask=[False, False, False, False, True])
+            path = os.path.join(tmp, "big.nc")
+            make_var_file(path, (5,), arr, vtype=vt)
+            out = read_impl(path, "v", tname, None)
+            desc = {"variable": {"values": arr.tolist(), "dtype": vt}, "DataType": tname}
+            ctx.case("read-big %s %s" % (vt, tname), sample=None)
+            ctx.count("read_beyond_2_53_cases")
+            if out[0] != "ok":
+                ctx.count("read_beyond_2_53_rejected:%s:%s" % (vt, tname))
+                continue
+            got = [int(x) for x in numpy.ma.getdata(out[1]).tolist()[:4]]
+            # (a signed target cannot hold unsigned values beyond 2^63: those are outside what is compared)
+            pairs = [(g, w) for g, w in zip(got, vals[:4]) if out[1].dtype.kind == "u" or w < 2 ** 63]
+            if out[1].dtype.kind not in "iu" or any(g != w for g, w in pairs):
+                ctx.fail("an %s variable holding %r read as %s comes back as %r (%s)" % (vt, vals[:4], tname, got, out[1].dtype), desc)
     for (out, desc), ans in zip(metas, model.ask(lines)):
         if ans.startswith("ok "):
             if out[0] != "ok":
